@@ -13,6 +13,7 @@ import (
 	"strconv"
 	"strings"
 	"testing"
+	"unicode"
 
 	"github.com/miekg/dns"
 )
@@ -41,7 +42,7 @@ func TestVerifSrcgenSelftest(t *testing.T) {
 		n++
 		fmt.Fprintf(&b, "Example r_%d : %s = %s.\nProof. vm_compute. reflexivity. Qed.\n", n, lhs, rhs)
 	}
-	labels := []string{"a", "B", "www", "Example", "com", "x-1", "_tcp", "a\\.b", "c\\\\", "z\\065", "*", "0"}
+	labels := []string{"a", "B", "www", "Example", "com", "x-1", "_tcp", "a\\.b", "c\\\\", "z\\065", "*", "0", "a b", "t\tx"}
 	name := func() string {
 		k := r.Intn(5)
 		if k == 0 && r.Intn(3) == 0 {
@@ -83,6 +84,7 @@ func TestVerifSrcgenSelftest(t *testing.T) {
 		ex("go_index_byte "+vSGBytes(a)+" 46%N", fmt.Sprintf("(%d)%%Z", strings.IndexByte(a, '.')))
 		ex("go_last_index_byte "+vSGBytes(a)+" 46%N", fmt.Sprintf("(%d)%%Z", strings.LastIndexByte(a, '.')))
 		ex("go_contains "+vSGBytes(a)+" "+vSGBytes(c), fmt.Sprint(strings.Contains(a, c)))
+		ex("go_index_space_ascii "+vSGBytes(a), fmt.Sprintf("(%d)%%Z", strings.IndexFunc(a, unicode.IsSpace)))
 		ex("go_trim_suffix "+vSGBytes(a)+" "+vSGBytes(c), vSGBytes(strings.TrimSuffix(a, c)))
 		ex("go_trim_prefix "+vSGBytes(a)+" "+vSGBytes(c), vSGBytes(strings.TrimPrefix(a, c)))
 		ex("go_equal_fold_ascii "+vSGBytes(a)+" "+vSGBytes(c), fmt.Sprint(strings.EqualFold(a, c)))
